@@ -71,7 +71,7 @@ class Exploding:
 
 PLAIN_KINDS = ("int", "str", "bytes", "float", "none", "list", "tuple", "dict", "ndarray", "series")
 KINDS = PLAIN_KINDS + ("set", "frozenset", "reclist", "recdict", "point", "partial", "func", "custom",
-                       "nested_tok", "fsset", "tupset", "localcls", "localinst")
+                       "nested_tok", "fsset", "tupset", "localcls", "localinst", "dcparent", "dcchild")
 
 # classes created at run time (pickled by value by cloudpickle, like classes defined in __main__ or in
 # a function); one class object per number and run, see reset_local_classes()
@@ -80,6 +80,23 @@ _LOCAL_CLASSES: dict = {}
 
 def reset_local_classes():
     _LOCAL_CLASSES.clear()
+
+
+def local_dc_pair(n):
+    """A run-time dataclass and a subclass of it that defines __dask_tokenize__ (ignoring its
+    memo field, which does not take part in equality either)."""
+    if ("dc", n) not in _LOCAL_CLASSES:
+        parent = dataclasses.make_dataclass(f"DParent{n}", [("x", int), ("y", int)],
+                                            namespace={"__module__": "__main__"})
+
+        def __dask_tokenize__(self):
+            return (f"DChild{n}", self.x, self.y)
+
+        child = dataclasses.make_dataclass(
+            f"DChild{n}", [("memo", int, dataclasses.field(default=0, compare=False))], bases=(parent,),
+            namespace={"__module__": "__main__", "__dask_tokenize__": __dask_tokenize__})
+        _LOCAL_CLASSES[("dc", n)] = (parent, child)
+    return _LOCAL_CLASSES[("dc", n)]
 
 
 def local_class(n):
@@ -129,6 +146,10 @@ def gen_spec(tape, depth=0, plain=False):
         return ["localcls", tape.draw(2, "lc")]
     if k == "localinst":
         return ["localinst", tape.draw(2, "lc"), tape.draw(5, "lv")]
+    if k == "dcparent":
+        return ["dcparent", tape.draw(2, "dc"), tape.draw(4, "dx"), tape.draw(4, "dy")]
+    if k == "dcchild":
+        return ["dcchild", tape.draw(2, "dc"), tape.draw(4, "dx"), tape.draw(4, "dy"), tape.draw(3, "dm")]
     if k == "fsset":
         # a set of frozensets of small ints (members that "<" only partially orders, and whose own
         # iteration order depends on the insertion order when hashes collide modulo the table size)
@@ -190,6 +211,10 @@ def build(spec, rev=False):
         return local_class(spec[1])
     if k == "localinst":
         return local_class(spec[1])(spec[2])
+    if k == "dcparent":
+        return local_dc_pair(spec[1])[0](spec[2], spec[3])
+    if k == "dcchild":
+        return local_dc_pair(spec[1])[1](spec[2], spec[3], spec[4])
     if k == "fsset":
         return {frozenset(m) for m in spec[1]}
     if k == "tupset":
@@ -228,6 +253,9 @@ def _filled(typ, items):
 
 def _build_rev(spec):
     k = spec[0]
+    if k == "dcchild":
+        # an equal instance (the memo field is excluded from equality and from __dask_tokenize__)
+        return local_dc_pair(spec[1])[1](spec[2], spec[3], spec[4] + 1)
     if k == "list":
         return [_build_rev(s) for s in spec[1]]
     if k == "tuple":
